@@ -25,6 +25,7 @@ type recorder struct {
 	done        chan struct{}
 	closeMu     sync.Once
 	noAutoClose bool
+	only        *gws.Conn // when set, callbacks of other connections sharing this handler are ignored
 }
 
 func newRecorder() *recorder { return &recorder{done: make(chan struct{})} }
@@ -41,7 +42,12 @@ func (r *recorder) Events() []string {
 	return append([]string(nil), r.events...)
 }
 
+func (r *recorder) skip(c *gws.Conn) bool { return r.only != nil && c != r.only }
+
 func (r *recorder) OnOpen(c *gws.Conn) {
+	if r.skip(c) {
+		return
+	}
 	r.add("open")
 	if r.onOpen != nil {
 		r.onOpen(c)
@@ -49,6 +55,9 @@ func (r *recorder) OnOpen(c *gws.Conn) {
 }
 
 func (r *recorder) OnClose(c *gws.Conn, err error) {
+	if r.skip(c) {
+		return
+	}
 	r.add("close:" + closeErrString(err))
 	if r.onClose != nil {
 		r.onClose(c, err)
@@ -67,13 +76,25 @@ func closeErrString(err error) string {
 }
 
 func (r *recorder) OnPing(c *gws.Conn, p []byte) {
+	if r.skip(c) {
+		return
+	}
 	r.add("ping:" + hx(p))
 	if r.onPing != nil {
 		r.onPing(c, p)
 	}
 }
-func (r *recorder) OnPong(c *gws.Conn, p []byte) { r.add("pong:" + hx(p)) }
+func (r *recorder) OnPong(c *gws.Conn, p []byte) {
+	if r.skip(c) {
+		return
+	}
+	r.add("pong:" + hx(p))
+}
 func (r *recorder) OnMessage(c *gws.Conn, m *gws.Message) {
+	if r.skip(c) {
+		_ = m.Close()
+		return
+	}
 	r.add(fmt.Sprintf("msg:%d:%s", m.Opcode, hx(m.Bytes())))
 	if r.onMsg != nil {
 		r.onMsg(c, m)
